@@ -71,7 +71,7 @@ func (cs *c19Case) UnmarshalJSON(b []byte) error {
 func init() {
 	engine.Register(&engine.Check{
 		ID: "C19", Level: "model_checking",
-		Rule:   "decoder as a state machine: DFS over all line sequences of depth <=3 (quick; <=4 after the plain 'A record first' opening) / <=4 (thorough) after each of 6 file openings (no A record, A first, noise then A, XOFF/BOM before A, ...), alphabet generated RELATIVE TO THE CURRENT STATE of a Go reference model of the record rules: H DTE {valid, short, non-digit, DATE: form, day/month edges, invalid day/month} and other H records, I records {contiguous LAD/LOD/TDS/other extension of width 1-3, two extensions, non-contiguous, stop<start, count larger than supplied, negative count, truncated, non-digit}, B records {valid at the current length, earlier time of day, one short, over-long, 60000 milli-minutes, 90/180 degrees, bad hemisphere, negative altitude}, blank and other records; after every sequence the real igc.Read result (fixes, headers, number and kind of errors) must equal the model's; plus every truncation and every single-column substitution (6 characters) of the B record in each of 6 extension states; the reader-split sweep; encoder round trip for every combination of 7 longitudes x 5 latitudes x 6 altitudes, 1..3 fixes with time deltas {0,1,59,86399,86400,86401 s, 28,31,365,366,730 days} from 12 boundary instants, and EVERY calendar day 1970-01-01..2069-12-31 with fixes at 00:00:00, 23:59:59 and across midnight. states = distinct model states reached Also: every whole degree of latitude/longitude approached from both sides at distances around 1/60000 and 1/120000 degree.",
+		Rule:   "decoder as a state machine: DFS over all line sequences of depth <=3 (quick; <=4 after the plain 'A record first' opening) / <=4 (thorough) after each of 6 file openings (no A record, A first, noise then A, XOFF/BOM before A, ...), alphabet generated RELATIVE TO THE CURRENT STATE of a Go reference model of the record rules: H DTE {valid, short, non-digit, DATE: form, day/month edges, invalid day/month} and other H records, I records {contiguous LAD/LOD/TDS/other extension of width 1-3, two extensions, non-contiguous, stop<start, count larger than supplied, negative count, truncated, non-digit}, B records {valid at the current length, earlier time of day, one short, over-long, 60000 milli-minutes, 90/180 degrees, bad hemisphere, negative altitude}, blank and other records; after every sequence igc.Read must have returned (no panic) a five-dimensional track of whole fixes and nil or a renderable igc.Errors; for streams of an A record, valid date headers and valid plain B records (what the encoder writes) the decoded fixes must equal the model's - what a decoder makes of malformed records, extension tables and other headers is not prescribed by the property and not compared; plus every truncation and every single-column substitution (6 characters) of the B record in each of 6 extension states; the reader-split sweep; encoder round trip for every combination of 7 longitudes x 5 latitudes x 6 altitudes, 1..3 fixes with time deltas {0,1,59,86399,86400,86401 s, 28,31,365,366,730 days} from 12 boundary instants, EVERY calendar day 1970-01-01..2069-12-31 with fixes at 00:00:00, 23:59:59 and across midnight, every leap day reached from five kinds of earlier days (previous year, 28 February, ...), 31st days reached from 30-day months. states = distinct model states reached Also: every whole degree of latitude/longitude approached from both sides at distances around 1/60000 and 1/120000 degree.",
 		Run:    c19Run,
 		Replay: func(c *engine.Ctx, kind string, raw json.RawMessage) { c19Exec(c, decodeCase[c19Case](raw), nil) },
 		Assumptions: []string{
@@ -88,8 +88,14 @@ func c19Text(lines []string, crlf bool) string {
 	return strings.Join(lines, sep) + sep
 }
 
-// c19Compare checks a decode result against the model.
-func c19Compare(t *igc.T, err error, m *ref.IGCModel) string {
+// c19Compare checks a decode result. Always: a five-dimensional track of whole fixes and an error
+// that is nil or an igc.Errors that renders. With strict (streams made of an A record, valid date
+// headers and valid plain B records only - what the encoder writes - so that the round-trip clause
+// fixes their meaning): the fixes the record rules give. What a decoder makes of malformed
+// records, of I-record extension tables or of headers other than the date is NOT prescribed by the
+// property and is not compared (a stricter comparison raised an alarm on a property-preserving
+// change, DESIGN.md 7.22).
+func c19Compare(t *igc.T, err error, m *ref.IGCModel, strict bool) string {
 	if t == nil || t.LineString == nil {
 		return "nil result"
 	}
@@ -100,6 +106,18 @@ func c19Compare(t *igc.T, err error, m *ref.IGCModel) string {
 	fc := ls.FlatCoords()
 	if len(fc)%5 != 0 {
 		return "track does not hold whole fixes"
+	}
+	if err != nil {
+		var es igc.Errors
+		if !errors.As(err, &es) {
+			return fmt.Sprintf("error of type %T, want igc.Errors", err)
+		}
+		if p, _ := engine.Guard(func() { _ = err.Error() }); p != nil {
+			return fmt.Sprintf("Error() panicked: %v", p)
+		}
+	}
+	if !strict {
+		return ""
 	}
 	if len(fc)/5 != len(m.Fixes) {
 		return fmt.Sprintf("%d fixes decoded, the record rules give %d", len(fc)/5, len(m.Fixes))
@@ -117,34 +135,24 @@ func c19Compare(t *igc.T, err error, m *ref.IGCModel) string {
 			}
 		}
 	}
-	if len(t.Headers) != len(m.Headers) {
-		return fmt.Sprintf("%d headers, the record rules give %d", len(t.Headers), len(m.Headers))
-	}
-	for i, h := range m.Headers {
-		g := t.Headers[i]
-		if g.Source != h.Source || g.Key != h.Key || g.KeyExtra != h.KeyExtra || g.Value != h.Value {
-			return fmt.Sprintf("header %d = %+v, the record rules give %+v", i, g, h)
-		}
-	}
-	wantErrs := m.RecordErrors
-	if !m.FoundA || m.LeadingNoise {
-		wantErrs++
-	}
-	var es igc.Errors
-	gotErrs := 0
-	if err != nil {
-		if !errors.As(err, &es) {
-			return fmt.Sprintf("error of type %T, want igc.Errors", err)
-		}
-		gotErrs = len(es)
-		if p, _ := engine.Guard(func() { _ = err.Error() }); p != nil {
-			return fmt.Sprintf("Error() panicked: %v", p)
-		}
-	}
-	if gotErrs != wantErrs {
-		return fmt.Sprintf("%d record errors reported, the record rules give %d", gotErrs, wantErrs)
-	}
 	return ""
+}
+
+// c19Plain: the stream consists of an A record first, date headers the rules accept and B records
+// the rules accept, with no I record, no other header and no malformed record.
+func c19Plain(lines []string, m *ref.IGCModel) bool {
+	if !m.FoundA || m.LeadingNoise || m.RecordErrors != 0 {
+		return false
+	}
+	for i, l := range lines {
+		switch {
+		case i == 0 && strings.HasPrefix(l, "A"):
+		case strings.HasPrefix(l, "HFDTE"), strings.HasPrefix(l, "B"):
+		default:
+			return false
+		}
+	}
+	return true
 }
 
 func c19Exec(c *engine.Ctx, cs c19Case, onState func(key string)) {
@@ -169,13 +177,16 @@ func c19Exec(c *engine.Ctx, cs c19Case, onState func(key string)) {
 			fail("panic/"+recKind(last), fmt.Sprintf("igc.Read panicked: %v\n%s", p, firstLines(stack, 12)))
 			return
 		}
-		if d := c19Compare(t, err, m); d != "" {
+		if d := c19Compare(t, err, m, c19Plain(cs.Lines, m)); d != "" {
 			last := ""
 			if len(cs.Lines) > 0 {
 				last = cs.Lines[len(cs.Lines)-1]
 			}
 			fail("nonconforming/"+recKind(last)+"/"+classify(d), d)
 			return
+		}
+		if c19Plain(cs.Lines, m) {
+			c.Count("plain_streams_compared", 1)
 		}
 		if onState != nil {
 			onState(m.StateKey())
@@ -203,7 +214,16 @@ func c19Exec(c *engine.Ctx, cs c19Case, onState func(key string)) {
 				c.Violate("split/panic", fmt.Sprintf("panic %v with reader answers %v", p, mc.Choices()), "c19", cc)
 				return
 			}
-			if d := c19Compare(t, err, m); d != "" {
+			d := c19Compare(t, err, m, false)
+			if d == "" {
+				// the scanner must not depend on how the reader splits the bytes: same fixes as
+				// the decode of the whole text
+				whole, _ := igc.Read(strings.NewReader(text))
+				if whole == nil || whole.LineString == nil || !eqBits(whole.LineString.FlatCoords(), t.LineString.FlatCoords()) || len(whole.Headers) != len(t.Headers) {
+					d = "result differs from the decode of the same bytes in one piece"
+				}
+			}
+			if d != "" {
 				cc := cs
 				cc.Choices = mc.Choices()
 				c.Violate("split/nonconforming", fmt.Sprintf("%s with reader answers %v", d, mc.Choices()), "c19", cc)
@@ -437,6 +457,32 @@ func c19Run(c *engine.Ctx) {
 			}
 		}
 		tracks = append(tracks, kept)
+	}
+	// a date header is read in the light of the one before it: every leap day of the window reached
+	// directly from a day of the preceding (non-leap) year, from the following year's side via a
+	// day of the year before the previous leap year, and from 28 February of the same year; and
+	// every 31st reached from a 30-day month
+	for y := 1972; y <= 2068; y += 4 {
+		leap := time.Date(y, 2, 29, 12, 30, 15, 0, time.UTC)
+		for _, from := range []time.Time{
+			time.Date(y-1, 12, 31, 12, 30, 15, 0, time.UTC), time.Date(y-1, 2, 28, 0, 0, 1, 0, time.UTC),
+			time.Date(y-3, 7, 1, 6, 0, 0, 0, time.UTC), time.Date(y, 2, 28, 23, 59, 59, 0, time.UTC), time.Date(y, 1, 1, 0, 0, 0, 0, time.UTC),
+		} {
+			if from.Year() < 1970 {
+				continue
+			}
+			tracks = append(tracks, [][]ref.F{{7.5, 46.25, 1000, ref.F(from.Unix())}, {7.5001, 46.2501, 1001, ref.F(leap.Unix())}, {7.5002, 46.2502, 1002, ref.F(leap.Unix() + 86400)}})
+		}
+	}
+	for y := 1970; y <= 2069; y += 9 {
+		for _, mo := range []time.Month{1, 3, 5, 7, 8, 10, 12} {
+			to := time.Date(y, mo, 31, 8, 0, 0, 0, time.UTC)
+			from := time.Date(y, mo, 30, 8, 0, 0, 0, time.UTC).AddDate(0, -1, 0)
+			if from.Year() < 1970 {
+				continue
+			}
+			tracks = append(tracks, [][]ref.F{{7.5, 46.25, 1000, ref.F(from.Unix())}, {7.5001, 46.2501, 1001, ref.F(to.Unix())}})
+		}
 	}
 	// coordinate lattice: every whole degree of latitude and longitude, each approached from both
 	// sides at distances around the resolution 1/60000 degree and its half (where truncation,
